@@ -270,6 +270,31 @@ func c14HostDial(h Handle, id uint32) (Reply, error) {
 	return Reply{}, errors.New("unknown handle")
 }
 
+// c14BrokerBothWays: one brokered connection in each direction, identity checked.
+func c14BrokerBothWays(h Handle) (string, error) {
+	id := freshBrokerID()
+	c14HostAccept(h, id)
+	rr, err := h.DoT(Cmd{Op: "broker_dial", ID: id}, 30*time.Second)
+	if err != nil {
+		return "plugin dials host", err
+	}
+	if !strings.Contains(string(rr.B), fmt.Sprintf(`"broker":%d`, id)) || !strings.Contains(string(rr.B), `"side":"host"`) {
+		return "plugin dials host", fmt.Errorf("answered by %s", rr.B)
+	}
+	id2 := freshBrokerID()
+	if _, err := h.DoT(Cmd{Op: "broker_accept", ID: id2}, 20*time.Second); err != nil {
+		return "host dials plugin", err
+	}
+	r2, err := c14HostDial(h, id2)
+	if err != nil {
+		return "host dials plugin", err
+	}
+	if r2.Tag.Broker != id2 || r2.Tag.Side != "plugin" {
+		return "host dials plugin", fmt.Errorf("answered by %+v", r2.Tag)
+	}
+	return "", nil
+}
+
 // c14HostDialBlob: host dials id and asks the brokered server for a 5 MiB response.
 func c14HostDialBlob(h Handle, id uint32) error {
 	var bh Handle
